@@ -13,7 +13,7 @@ import RepeVerif.Gen.Svs
 
 clause → theorem
 * facts read off `value_stream.rs` are the ones the theorems need ........ `source_facts` (+ `sinkOk`, `nextOk`, `wireOk`),
-                                                                            `pull_source_form`, `pull_sequence_source`
+                                                                            `pull_source_form`, `pull_sequence_source`, `source_forms_recognised`
 * chunking loses/duplicates/reorders nothing, any write fragmentation .... `sink_concat`, `sink_chunks_full`,
                                                                             `sink_fragmentation_independent`
 * `produce` ⇒ `Chunk* ++ [End | Fail e]` (bare close when it vanishes) .... `produce_shape`
@@ -44,6 +44,14 @@ open Repe.Svs
 
 /-- What `extract/svs.py` read off the current `value_stream.rs`. -/
 theorem source_facts : Gen.svsFacts = specFacts := by decide
+
+/-- Every property-relevant statement of `value_stream.rs` the extractor anchors (the chunk-full test and
+loop body of `ChunkSink::write`, `flush`, `flush_remaining`, `send_chunk`, the arms and the compression
+match of `produce`, `Session::pull`/`recv`, the unknown-id / lock / `done` / remove branches of
+`NextHandler`, id allocation, channel depth and compression tag of `OpenHandler`, `CancelHandler`'s remove,
+`chunk_response`, `ChunkReader::fetch`/`read`, `pull_loop_async`, `ChannelReader::read`) has a form it
+recognises.  An unrecognised form is listed instead of silently falling back to the defaults. -/
+theorem source_forms_recognised : Gen.svsUnrecognised = [] := by decide
 
 theorem sinkOk : Gen.svsFacts.SinkOk := ⟨by decide, by decide, by decide⟩
 theorem nextOk : Gen.svsFacts.NextOk := ⟨by decide, by decide, by decide⟩
